@@ -302,7 +302,12 @@ class error_999_visitor(pyx12.error_visitor.error_visitor):
         """
         valid_IK3_codes = ('1', '2', '3', '4', '5', '6', '7', '8', 'I4', 'I6', 'I7', 'I8', 'I9')
         seg_base = pyx12.segment.Segment('IK3', '~', '*', ':')
-        seg_base.set('01', err_seg.seg_id)
+        seg_id = err_seg.seg_id
+        if seg_id and any(term in seg_id for term in
+                          (self.seg_term, self.ele_term, self.subele_term, self.repetition_term)):
+            # a segment ID holding one of our delimiters cannot be copied; IK302 still locates it
+            seg_id = ''
+        seg_base.set('01', seg_id)
         seg_base.set('02', '%i' % err_seg.seg_count)
         if err_seg.ls_id:
             seg_base.set('03', err_seg.ls_id)
